@@ -663,6 +663,12 @@ func newPyFunc(parentScope *scope, def *FuncDef) pyObject {
 		}
 		if arg.Value != nil {
 			if constant := parentScope.Constant(arg.Value); constant != nil {
+				if l, ok := constant.(pyList); ok && len(l) > 0 && parentScope.pkg == nil {
+					// This function isn't being defined by a package (it's in a builtin or subincluded
+					// file), so every package that calls it receives this same list as the default.
+					// Freeze it so that one of them cannot alter it for the others.
+					constant = l.Freeze()
+				}
 				f.constants[i] = constant
 			} else {
 				if f.defaults == nil {
